@@ -138,8 +138,10 @@ func runForced(c *core.Case, id string) {
 	case "F1", "F2":
 		// the serve loop has looked the reply's id up (entry found) and is parked
 		// before the hand-off; the requester is cancelled (F1: and has returned)
+		// (the rule is installed before the request exists: the reply may be
+		// looked up at once)
+		r := ct.Park("serve.lookup", "id-f")
 		f := w.startReq("f", "SendIQ", newPlan("iq", replySpec{"result", "now"}), nil)
-		r := ct.Park("serve.lookup", f.id)
 		if !arrived(r, "reply lookup") {
 			r.Release()
 			finish(f)
